@@ -94,7 +94,28 @@ def do_send(S, who, k, kind, val, t0, log, obj=None):
     log.append(rec)
 
 
-def make_routine(S, rid, steps, t0, log):
+def make_routine(S, rid, steps, t0, log, fn=False):
+    if fn:
+        # a plain function task: every awake performs the sends up to the next wait and returns it
+        st = {'k': 0, 'shared': None}
+
+        def f():
+            while st['k'] < len(steps):
+                k = st['k']
+                s_ = steps[k]
+                st['k'] += 1
+                if s_[0] == 'w':
+                    return num(s_[1])
+                if s_[0] == 'B':
+                    if s_[1] is not None:
+                        st['shared'] = pv(s_[1])
+                    do_send(S, rid, k, 'B', s_[1], t0, log, obj=st['shared'])
+                else:
+                    do_send(S, rid, k, s_[0], s_[1], t0, log)
+            return None
+        f.__qualname__ = f'function{rid}'
+        return f
+
     def gen():
         shared = None
         for k, st in enumerate(steps):
@@ -131,8 +152,9 @@ def run_rt_case(c):
         do_send(S, 'main', k, kind, val, t0, log)
     for rid, r in enumerate(c['routines']):
         clock = clk.SystemClock if r['clock'] == 's' else tempo
-        clock.sched(num(r['start']), make_routine(S, rid, r['steps'], t0, log))
-    vt.run_until(t0 + 256.0, late=num(c['late']))
+        clock.sched(num(r['start']), make_routine(S, rid, r['steps'], t0, log, r.get('fn', False)))
+    vt.run_until(t0 + 64.0, late=num(c['late']))
+    assert vt.now < 4096, 'virtual time too large for exact 2^-40 s arithmetic'
     died = [e for e in vt.log if e[0] == 'died']
     # the receiving side: time handed to receive functions for every captured bundle
     got = []
@@ -183,7 +205,7 @@ def run_nrt_case(c):
         do_send(S, 'main', k, kind, val, 0.0, log)
     for rid, r in enumerate(c['routines']):
         clock = clk.SystemClock if r['clock'] == 's' else tempo
-        clock.sched(num(r['start']), make_routine(S, rid, r['steps'], 0.0, log))
+        clock.sched(num(r['start']), make_routine(S, rid, r['steps'], 0.0, log, r.get('fn', False)))
     try:
         score = main.process(num(c['tail']))
         res = {'list': canon(score.list), 'raw': bytes(score.raw).hex(),
